@@ -79,7 +79,7 @@ fn nontrivial(op: Op, a: i64, b: i64) -> bool {
     }
 }
 
-const FORMS: [&str; 5] = ["plain", "var", "elem", "prop", "index"];
+const FORMS: [&str; 8] = ["plain", "var", "elem", "prop", "index", "shadow", "param", "loopvar"];
 
 // Statements that compute `a op b` in the given form and print the result.
 fn form_src(form: &str, op: Op, a: i64, b: i64) -> String {
@@ -89,6 +89,12 @@ fn form_src(form: &str, op: Op, a: i64, b: i64) -> String {
         "var" => format!("x := {sa}\nx {o}= {sb}\nprint(x)"),
         "elem" => format!("xs := [0, {sa}]\nxs[1] {o}= {sb}\nprint(xs[1])"),
         "prop" => format!("o := {{\"k\": {sa}}}\no.k {o}= {sb}\nprint(o.k)"),
+        // Op-assignment on a name that shadows an outer variable of the same
+        // name: block-local, parameter, loop variable. `x op= y` is `x = x op y`
+        // on the innermost x; the outer one keeps its value.
+        "shadow" => format!("x := 7\n{{\n    x := {sa}\n    x {o}= {sb}\n    print(x)\n}}\nif x != 7 {{\n    print(\"outer changed\")\n}}"),
+        "param" => format!("fn g(x) {{\n    x {o}= {sb}\n    return x\n}}\nx := 7\nprint(g({sa}))\nif x != 7 {{\n    print(\"outer changed\")\n}}"),
+        "loopvar" => format!("x := 7\nfor [_, x] in [{sa}] {{\n    x {o}= {sb}\n    print(x)\n}}\nif x != 7 {{\n    print(\"outer changed\")\n}}"),
         _ => format!("o := {{\"k\": {sa}}}\no[\"k\"] {o}= {sb}\nprint(o[\"k\"])"),
     }
 }
@@ -109,7 +115,7 @@ fn arith_cases(ctx: &Ctx, pairs: &[(i64, i64)], forms: &[&str], kind: &str) {
                         let mut e = Expect::err(vec![]);
                         // Names the operation and the operands, in order.
                         e.diag = vec![
-                            DiagPred::WellFormed{max_line: 4},
+                            DiagPred::WellFormed{max_line: 12},
                             DiagPred::MsgContains(vec![a.to_string(), op.sym().to_string(), b.to_string()]),
                         ];
                         bad.push((Case{
@@ -377,7 +383,7 @@ pub fn run(ctx: &Ctx) {
     for _ in 0..n {
         rp.push(random_pair(&mut t));
     }
-    let forms: &[&str] = if ctx.tier == Tier::Quick { &["plain", "elem"] } else { &FORMS };
+    let forms: &[&str] = if ctx.tier == Tier::Quick { &["plain", "elem", "shadow"] } else { &FORMS };
     arith_cases(ctx, &rp, forms, "random");
     compare_cases(ctx, &rp);
 }
